@@ -571,7 +571,11 @@ func andLin[P curves.Point[P, F, S], F algebra.FieldElement[F], S algebra.PrimeF
 			{"commitment-dropped", a[:count-1], z, av[:count-1], zv, false},
 			{"response-dropped", a, z[:count-1], av, zv[:count-1], false},
 		}
+		broken := false
 		for _, v := range vs {
+			if broken && strings.HasSuffix(v.name, "-dropped") {
+				continue // see niCase: would crash inside a library goroutine; the accepted transcript above is the failing input
+			}
 			cs := fmt.Sprintf("sigma %s %s e=%s xs=%s as=%s zs=%s", id, v.name, vh.Hex(e), strings.Join(xv, "|"), strings.Join(v.av, "|"), strings.Join(v.zv, "|"))
 			h.res.Count("sigma-and-"+v.name+"/"+id, cs, true)
 			h.flush()
@@ -582,6 +586,9 @@ func andLin[P curves.Point[P, F, S], F algebra.FieldElement[F], S algebra.PrimeF
 				continue
 			}
 			got := verr == nil
+			if got && !v.want {
+				broken = true
+			}
 			join := func(xs []string) string {
 				if len(xs) == 0 {
 					return "-"
